@@ -706,94 +706,101 @@ func genRepo(rng *rand.Rand) *b.Repo {
 			t.Data = append(t.Data, f)
 		}
 	}
-	if rng.Intn(3) != 0 {
+	if rng.Intn(4) != 0 {
 		addReroutes(rng, repo)
 	}
 	return repo
 }
 
 // addReroutes gives some consumers a `requires` that one of their declared inputs `provides`, pointing
-// at an earlier target which (when there is one) nothing else mentions: the consumer is then built from a
-// target that no kept target declares, only the resolved dependency graph knows about it. The generator's
-// own provides (pa/pb/pc) never meet its requires (lx/py), and the macro's `lx` child is also a declared
-// dependency of the macro rule, so without this every re-routed target is reachable by declarations too.
+// at an earlier target that nothing else mentions (an existing one, or a fresh genrule / text_file added
+// for the purpose): the consumer is then built from a target that no kept target declares; only the
+// resolved dependency graph knows about it. The generator's own provides (pa/pb/pc) never meet its
+// requires (lx/py), and the macro's `lx` child is also a declared dependency of the macro rule, so
+// without this every re-routed target is reachable by declarations too. Consumers that are gc roots
+// (binaries, tools) are preferred.
 func addReroutes(rng *rand.Rand, repo *b.Repo) int {
-	idx := map[string]int{}
-	mentioned := map[string]bool{}
-	for i, t := range repo.Targets {
-		idx[t.Label()] = i
-		for _, l := range t.InputLabels() {
-			mentioned[absLabel(t.Pkg, l)] = true
-		}
-		for _, v := range t.Provides {
-			mentioned[absLabel(t.Pkg, v)] = true
-		}
-	}
-	type cand struct{ t, d *b.Target }
-	var cands, binCands []cand
-	for _, t := range repo.Targets {
-		if t.Kind == b.Lib || t.Kind == b.TextFile || t.IsTool {
-			continue
-		}
-		var skip []string // tool and data dependencies are never re-routed
-		skip = append(skip, t.Tools...)
-		for _, k := range b.SortedKeys(t.NamedTools) {
-			skip = append(skip, t.NamedTools[k]...)
-		}
-		skip = append(skip, t.DataLabels()...)
-		for i := range skip {
-			skip[i] = absLabel(t.Pkg, skip[i])
-		}
-		for _, l := range t.InputLabels() {
-			l = absLabel(t.Pkg, l)
-			d := repo.Target(l)
-			if inList(skip, l) || d == nil || d.IsTool || (d.Kind != b.Genrule && d.Kind != b.Filegroup) || idx[l] == 0 {
-				continue
-			}
-			cands = append(cands, cand{t, d})
-			if t.Binary {
-				binCands = append(binCands, cand{t, d})
-			}
-		}
-	}
 	n := 0
-	for j := 0; j < 2 && len(cands) > 0; j++ {
-		c := cands[rng.Intn(len(cands))]
-		if len(binCands) > 0 && rng.Intn(4) != 0 {
-			c = binCands[rng.Intn(len(binCands))]
+	for j, want := 0, 1+rng.Intn(2); j < want; j++ {
+		idx := map[string]int{}
+		mentioned := map[string]bool{}
+		for i, t := range repo.Targets {
+			idx[t.Label()] = i
+			for _, l := range t.InputLabels() {
+				mentioned[absLabel(t.Pkg, l)] = true
+			}
+			for _, v := range t.Provides {
+				mentioned[absLabel(t.Pkg, v)] = true
+			}
 		}
-		if _, ok := c.d.Provides["rq"]; ok {
-			continue
-		}
-		var fresh, any []*b.Target
-		for _, p := range repo.Targets[:idx[c.d.Label()]] {
-			if p.IsTool || p.Kind == b.Gentest || p.TestOnly {
+		type cand struct{ t, d *b.Target }
+		var cands, rootCands []cand
+		for _, t := range repo.Targets {
+			if t.Kind == b.Lib || t.Kind == b.TextFile {
 				continue
 			}
-			any = append(any, p)
-			if !mentioned[p.Label()] && !p.Binary && len(p.Labels) == 0 {
+			var skip []string // tool and data dependencies are never re-routed
+			skip = append(skip, t.Tools...)
+			for _, k := range b.SortedKeys(t.NamedTools) {
+				skip = append(skip, t.NamedTools[k]...)
+			}
+			skip = append(skip, t.DataLabels()...)
+			for i := range skip {
+				skip[i] = absLabel(t.Pkg, skip[i])
+			}
+			for _, l := range t.InputLabels() {
+				l = absLabel(t.Pkg, l)
+				d := repo.Target(l)
+				if inList(skip, l) || d == nil || d.IsTool || (d.Kind != b.Genrule && d.Kind != b.Filegroup) {
+					continue
+				}
+				if _, ok := d.Provides["rq"]; ok {
+					continue
+				}
+				cands = append(cands, cand{t, d})
+				if t.Kind == b.Genrule && (t.Binary || t.IsTool) {
+					rootCands = append(rootCands, cand{t, d})
+				}
+			}
+		}
+		if len(cands) == 0 {
+			break
+		}
+		c := cands[rng.Intn(len(cands))]
+		if len(rootCands) > 0 && rng.Intn(4) != 0 {
+			c = rootCands[rng.Intn(len(rootCands))]
+		}
+		var fresh []*b.Target
+		for _, p := range repo.Targets[:idx[c.d.Label()]] {
+			if !p.IsTool && p.Kind != b.Gentest && !p.TestOnly && !mentioned[p.Label()] && !p.Binary && len(p.Labels) == 0 {
 				fresh = append(fresh, p)
 			}
 		}
-		if len(fresh) > 0 {
-			any = fresh
+		var p *b.Target
+		if len(fresh) > 0 && rng.Intn(2) == 0 {
+			p = fresh[rng.Intn(len(fresh))]
+		} else {
+			pkg := c.d.Pkg
+			if rng.Intn(2) == 0 {
+				pkg = c.t.Pkg
+			}
+			name := fmt.Sprintf("pv%d", j)
+			if rng.Intn(3) == 0 {
+				p = &b.Target{Pkg: pkg, Name: name, Kind: b.TextFile, Content: "provided" + fmt.Sprint(rng.Intn(5)), Outs: []string{name + ".txt"}}
+			} else {
+				p = &b.Target{Pkg: pkg, Name: name, Kind: b.Genrule, Salt: fmt.Sprintf("s%d", rng.Intn(1000)), Op: "all", Srcs: []string{name + "_src.txt"}, Outs: []string{name + ".out"}}
+				repo.Files[filepath.Join(pkg, name+"_src.txt")] = "provided source"
+			}
+			repo.Targets = append([]*b.Target{p}, repo.Targets...) // provides must point at an earlier target
 		}
-		if len(any) == 0 {
-			continue
-		}
-		p := any[rng.Intn(len(any))]
 		if c.d.Provides == nil {
 			c.d.Provides = map[string]string{}
 		}
 		c.d.Provides["rq"] = p.Label()
-		mentioned[p.Label()] = true
 		if !inList(c.t.Requires, "rq") {
 			c.t.Requires = append(c.t.Requires, "rq")
 		}
 		n++
-		if rng.Intn(2) == 0 {
-			break
-		}
 	}
 	return n
 }
@@ -801,7 +808,7 @@ func addReroutes(rng *rand.Rand, repo *b.Repo) int {
 func TestC25(t *testing.T) {
 	r := lib.Start("C25")
 	defer lib.End(t, r)
-	r.Rule = "seeded repositories of 5-13 model targets (non-test binaries and tools, macro libraries with a hidden child that is provided for `lx`, filegroups and genrules with provides/requires (in two of three repositories some consumer requires what one of its inputs provides, the provided target being mentioned by nothing else when possible), text files, gentest tests with file / directory / label data, test_only targets, gc_sibling: labels, files shared between targets exactly or through a directory source, nested and root packages, subincluded build_defs built by a filegroup or a genrule) x 3 invocations of `plz gc --dry_run` with random [gc] keep (labels, :all, /...), keeplabel, --conservative and command-line filters. " +
+	r.Rule = "seeded repositories of 5-13 model targets, plus up to two added provided targets (non-test binaries and tools, macro libraries with a hidden child that is provided for `lx`, filegroups and genrules with provides/requires (in three of four repositories one or two consumers, preferably binaries, require what one of their inputs provides, the provided target being one that nothing else mentions), text files, gentest tests with file / directory / label data, test_only targets, gc_sibling: labels, files shared between targets exactly or through a directory source, nested and root packages, subincluded build_defs built by a filegroup or a genrule) x 3 invocations of `plz gc --dry_run` with random [gc] keep (labels, :all, /...), keeplabel, --conservative and command-line filters. " +
 		"Distinct by JSON of repository + invocation; non-trivial = the tool proposed at least one removal and the reference closure contains at least one target that is not a root"
 	r.Assumes = []string{
 		"the reference closure is computed from the generator's model (declared inputs, require/provide re-routing except for data and tools, macro child), never from plz query",
